@@ -110,20 +110,6 @@ theorem options_table : ∀ x ∈ requiredOptions, x ∈ Generated.clientOptions
 
 /-! ### `dispatch` is the interpretation of the table translated from `main()` on every run -/
 
-open CliTable in
-/-- a translated row as a `Row` -/
-def ofTuple (t : Str × List Str × List (Str × Str) × Str × List Str × List Str) : CliTable.Row :=
-  { dest := t.1, required := t.2.1, conv := t.2.2.1, method := t.2.2.2.1, args := t.2.2.2.2.1, post := t.2.2.2.2.2 }
-
-/-- the table `harness/hsv/clitext.py` translates from the source's `main()` on every run — the
-    `elif` chain verb by verb (flag, required variables in order, conversions, API method, argument
-    variables in order, what is done with the result besides printing), the option variables and
-    the default of the format id — is the table of the model -/
-theorem client_table_is_source :
-    Generated.clientRows.map ofTuple = CliTable.verbTable ∧
-    Generated.clientVars = CliTable.varSources ∧
-    Generated.clientFormatDefault = some CliTable.formatDefault := by decide +kernel
-
 /-- every name of the table resolves (flags to verbs, variables to option fields, methods to API
     calls, the one conversion is `size = int(size)`) -/
 theorem table_resolves : CliTable.verbTable.map CliTable.Row.resolve = CliTable.tableE.map some := by
